@@ -191,8 +191,8 @@ def c07(ctx):
     if ctx.tier == QUICK:
         cfgs = [dict(TS=0, TE=5, MaxSp=6, RISet="{FALSE, TRUE}", _mrtsq=[0, 10], _tauq=[0, 4])]
     else:
-        cfgs = [dict(TS=0, TE=6, MaxSp=7, RISet="{FALSE, TRUE}", _mrtsq=[0, 6, 16], _tauq=[0, 2, 6]),
-                dict(TS=-2, TE=7, MaxSp=3, RISet="{FALSE, TRUE}", _mrtsq=[0, 10], _tauq=[0, 4])]
+        cfgs = [dict(TS=0, TE=6, MaxSp=7, RISet="{FALSE, TRUE}", _mrtsq=[0, 16], _tauq=[0, 6]),
+                dict(TS=-2, TE=6, MaxSp=3, RISet="{FALSE}", _mrtsq=[0, 10, 40], _tauq=[0, 4])]
     _run_rel(ctx, ["Symmetric", "Identity", "InRange"], "rel_c07", cfgs,
              "definitions are symmetric, zero / one on identical trains, in range")
     # the range clause on inputs beyond the grid: InRange is an invariant of the scan modules and is
@@ -212,8 +212,8 @@ def c08(ctx):
         cfgs = [dict(TS=0, TE=5, MaxSp=6, RISet="{FALSE}", _mrtsq=[0, 10], _tauq=[0, 4], _shiftsp=[2, 7], _scales=[3]),
                 dict(TS=0, TE=5, MaxSp=2, RISet="{TRUE}", _mrtsq=[6], _tauq=[2], _shiftsp=[4], _scales=[2])]
     else:
-        cfgs = [dict(TS=0, TE=6, MaxSp=7, RISet="{FALSE, TRUE}", _mrtsq=[0, 10], _tauq=[0, 4], _shiftsp=[2, 7], _scales=[3]),
-                dict(TS=-2, TE=7, MaxSp=3, RISet="{FALSE, TRUE}", _mrtsq=[0, 6], _tauq=[0, 6], _shiftsp=[0, 6], _scales=[2, 5])]
+        cfgs = [dict(TS=0, TE=6, MaxSp=5, RISet="{FALSE}", _mrtsq=[0, 10], _tauq=[0, 4], _shiftsp=[2, 7], _scales=[3]),
+                dict(TS=-2, TE=6, MaxSp=3, RISet="{TRUE}", _mrtsq=[0, 6], _tauq=[0, 6], _shiftsp=[0, 6], _scales=[2, 5])]
     _run_rel(ctx, ["ShiftInv", "ScaleInv", "MirrorSym"], "rel_c08", cfgs,
              "definitions commute with shift / scale / mirror of the time axis")
     q = ctx.tier == QUICK
@@ -232,8 +232,8 @@ def c15(ctx):
         cfgs = [dict(TS=0, TE=5, MaxSp=6, RISet="{FALSE}", _mrtsq=[0, 2, 6, 10, 30], _tauq=[0]),
                 dict(TS=0, TE=5, MaxSp=3, RISet="{TRUE}", _mrtsq=[0, 3, 12], _tauq=[4])]
     else:
-        cfgs = [dict(TS=0, TE=6, MaxSp=7, RISet="{FALSE, TRUE}", _mrtsq=[0, 2, 6, 10, 30], _tauq=[0]),
-                dict(TS=-2, TE=7, MaxSp=3, RISet="{FALSE, TRUE}", _mrtsq=[0, 3, 8, 12, 40], _tauq=[0, 4])]
+        cfgs = [dict(TS=0, TE=6, MaxSp=5, RISet="{FALSE}", _mrtsq=[0, 2, 6, 10, 30], _tauq=[0]),
+                dict(TS=-2, TE=6, MaxSp=3, RISet="{TRUE}", _mrtsq=[0, 8, 40], _tauq=[0, 4])]
     _run_rel(ctx, ["ZeroIsPlain", "Monotone", "BelowAllIsNoOp"], "rel_c15", cfgs,
              "definitions: MRTS=0 is the plain measure, values monotone in MRTS, no-op below all ISIs")
     q = ctx.tier == QUICK
@@ -312,6 +312,12 @@ def c12(ctx):
             ctx.count_path(mod + ":" + "/".join(r["path"]))
         replay.run(ctx, ck, res.exports, backends=("shim",), chunk=200)
     _c12_add(ctx)
+    # larger random argument tuples (T = 60, <= 20 spikes): twins against each other
+    import traces as _traces
+    big = _traces.random_pair_records(ctx.seed + 301, 300 if q else 5000)
+    ctx.sample({"random_twin_input": big[0]}, limit=8)
+    for ck in ("twin_isi", "twin_spike", "twin_sync"):
+        replay.run(ctx, ck, big, backends=("shim",), chunk=50)
     # the public functions under both configurations (the fallback branches of the dispatchers included)
     res = run_tlc("Relations", dict(TS=0, TE=5, MaxSp=3 if q else 4, MRTSQ=tla_set([0, 10]), TauQ=tla_set([0, 4, 14]),
                                     RISet="{FALSE, TRUE}", ShiftsP="{5}", Scales="{1}"), ["Export"], workers=16, timeout=3000)
@@ -324,11 +330,12 @@ def c12(ctx):
 
 
 def _heap_cfgs(tier, kind):
+    # Accu: object 3 starts as the zero single-piece function (accumulator idiom) instead of unallocated
     if kind == "disc":
-        return [dict(T0=0, T=3, MaxOps=2, NBase=2)] if tier == QUICK else \
-               [dict(T0=0, T=3, MaxOps=3, NBase=2), dict(T0=-2, T=2, MaxOps=2, NBase=2)]
-    return [dict(T0=0, T=4, MaxOps=2, NBase=2)] if tier == QUICK else \
-           [dict(T0=0, T=4, MaxOps=3, NBase=2), dict(T0=-2, T=4, MaxOps=2, NBase=2)]
+        return [dict(T0=0, T=3, MaxOps=2, NBase=2, Accu="FALSE"), dict(T0=0, T=3, MaxOps=1, NBase=2, Accu="TRUE")] if tier == QUICK else \
+               [dict(T0=0, T=3, MaxOps=3, NBase=2, Accu="FALSE"), dict(T0=-2, T=2, MaxOps=2, NBase=2, Accu="TRUE")]
+    return [dict(T0=0, T=4, MaxOps=2, NBase=2, Accu="FALSE"), dict(T0=0, T=4, MaxOps=1, NBase=2, Accu="TRUE")] if tier == QUICK else \
+           [dict(T0=0, T=4, MaxOps=3, NBase=2, Accu="FALSE"), dict(T0=-2, T=4, MaxOps=2, NBase=2, Accu="TRUE")]
 
 
 HEAP_INVS = ["Represents", "IntegralLinear"]
@@ -481,11 +488,12 @@ def c06(ctx):
     _multi(ctx, dict(N=4, Sample=4 if q else 6, MRTS4=6, TAU4=4, RIFlag="TRUE"), prof + mats,
            ["PointwiseMean", "PooledEvents", "MatrixIsBivariate"], ["multi_abs", "multi_perm"],
            "N = 4 (tail branches of the adds, recursive halving of 6 pairs)")
+    _multi(ctx, dict(N=5, TE=4, MaxSp=2, Sample=2 if q else 3, MRTS4=6, TAU4=4, RIFlag="TRUE"),
+           ["isi_profile", "spike_profile", "sync_profile", "isi_distance", "sync"],
+           ["PointwiseMean", "PooledEvents"], ["multi_abs", "multi_perm"], "N = 5: ten pairs, uneven halving, keywords that matter")
     if not q:
         _multi(ctx, dict(N=3, TS=-2, TE=3, MaxSp=3, Sample=8, MRTS4=10, TAU4=6), prof + mats,
                ["PointwiseMean", "PooledEvents", "MatrixIsBivariate"], ["multi_abs", "multi_perm"], "second origin, 3 spikes")
-        _multi(ctx, dict(N=5, TE=4, MaxSp=2, Sample=3), ["isi_profile", "sync_profile", "isi_distance", "sync"],
-               ["PointwiseMean", "PooledEvents"], ["multi_abs", "multi_perm"], "N = 5")
     import traces as _traces
     _traces.validate_multi(ctx, ctx.seed + 201, 120 if q else 1500)
     _traces.validate_multi(ctx, ctx.seed + 202, 60 if q else 800, mrts4=6, tau4=8, ri=True)
@@ -506,6 +514,8 @@ def c14(ctx):
            ["multi_forms", "multi_abs"], "N = 4: 60 ordered selections")
     _multi(ctx, dict(N=3, IdxMode='"all"', Sample=4 if q else 8, MRTS4=6, TAU4=4, RIFlag="TRUE", IvCodes="{0, 105}"), fns, [],
            ["multi_forms", "multi_abs"], "keywords that matter (max_tau = 1, MRTS = 1.5, RI) through every form")
+    _multi(ctx, dict(N=5, IdxMode='"perms"', Sample=1 if q else 2, MRTS4=6), ["isi_profile", "sync_profile", "order_profile", "isi_distance"],
+           [], ["multi_forms", "multi_abs"], "N = 5: every ordering of the whole list as index selection (10 pairs, recursive halving)")
     ctx.assumptions += ["the expected value of f(list, indices=idx) is computed by the spec on the selected sub-list in the "
                         "given order; the forms are compared with each other on the code"]
     return ctx.finish(rule="lists x every ordered subset of positions (size >= 2) x entry point x call form "
@@ -567,6 +577,7 @@ def c18(ctx):
             dict(N=3, PoolMode='"deg"', IvCodes="{0, 206}", Sample=0 if not q else 5),
             dict(N=3, PoolMode='"deg"', MRTS4=6, TAU4=4, RIFlag="TRUE", Sample=0 if not q else 5),
             dict(N=4, PoolMode='"deg"', Sample=3 if q else 6, IdxMode='"none"'),
+            dict(N=3, PoolMode='"deg"', Sample=4 if q else 0, IdxMode='"all"', TAU4=8),
             dict(N=3, MaxSp=3, TE=5, Sample=6 if q else 12, IvCodes="{0, 307}", MRTS4=10, TAU4=0)]
     for r in runs:
         _multi(ctx, r, ALL_FNS, [], ["multi_wf"], "every entry point on lists of degenerate trains: well-formed result", chunk=200)
